@@ -41,11 +41,9 @@ func (c *Ctx) frameEmitter() (emit *ssa.Function, respIdx int, why string) {
 		return nil, 0, "no (*ResponseWriter).Write"
 	}
 	has := func(f *ssa.Function) bool {
-		for _, a := range an.WithClosures(f) {
-			for _, ci := range an.Calls(a) {
-				if _, _, ok := isBufioWriterMethod(ci.Common()); ok {
-					return true
-				}
+		for _, ci := range an.Calls(f) {
+			if _, _, ok := isBufioWriterMethod(ci.Common()); ok {
+				return true
 			}
 		}
 		return false
@@ -56,7 +54,7 @@ func (c *Ctx) frameEmitter() (emit *ssa.Function, respIdx int, why string) {
 	shipped := c.shippedFuncs(G)
 	var cands []*ssa.Function
 	for _, f := range shipped {
-		if f.Parent() == nil && f != write && has(f) {
+		if f != write && has(f) {
 			cands = append(cands, f)
 		}
 	}
@@ -80,36 +78,74 @@ func (c *Ctx) frameEmitter() (emit *ssa.Function, respIdx int, why string) {
 	if call == nil {
 		return write, 1, fname(h) + " is not called directly by Write"
 	}
-	if h.Signature.Recv() == nil || an.Strip(call.Common().Args[0]) != ssa.Value(write.Params[0]) {
-		return write, 1, fname(h) + " is not called on Write's own receiver"
-	}
-	respIdx = -1
-	for i, a := range call.Common().Args {
-		if an.Strip(a) == ssa.Value(write.Params[1]) {
-			respIdx = i
+	if h.Parent() == write {
+		// a function literal of Write invoked on the spot: it sees Write's own receiver and response
+		respIdx = 1
+	} else {
+		if h.Signature.Recv() == nil || an.Strip(call.Common().Args[0]) != ssa.Value(write.Params[0]) {
+			return write, 1, fname(h) + " is not called on Write's own receiver"
+		}
+		respIdx = -1
+		for i, a := range call.Common().Args {
+			if an.Strip(a) == ssa.Value(write.Params[1]) {
+				respIdx = i
+			}
+		}
+		if respIdx < 0 {
+			return write, 1, fname(h) + " is not given Write's response"
 		}
 	}
-	if respIdx < 0 {
-		return write, 1, fname(h) + " is not given Write's response"
+	// after the call Write reports what the helper reported: it returns the helper's result itself, or nil only
+	// where that result is known to be nil, or an error only where it is known to be non-nil
+	resultNil := func(b *ssa.BasicBlock) (isNil, known bool) {
+		for _, fct := range an.BranchFacts(b) {
+			cond, neg := an.Not(fct.Cond)
+			if x, trueMeansNil, ok := an.NilCheck(cond); ok && an.Strip(x) == ssa.Value(call) {
+				return (fct.True != neg) == trueMeansNil, true
+			}
+		}
+		return false, false
 	}
-	// after the call Write returns the helper's result, whatever it is
 	for _, ret := range an.Returns(write) {
-		if an.Search(an.After(call), isInstr(ret), nil) == nil {
+		res := an.ReturnResults(ret)
+		if len(res) != 1 {
+			return write, 1, "Write does not return a single error"
+		}
+		afterCall := an.Search(an.After(call), isInstr(ret), nil) != nil
+		withoutCall := an.Search(an.Entry(write), isInstr(ret), isInstr(call)) != nil
+		isNilRet := an.IsNilConst(an.Strip(res[0]))
+		if withoutCall && isNilRet {
+			return write, 1, "Write can return nil without calling " + fname(h) + " at " + c.pos(ret)
+		}
+		if !afterCall || an.Strip(res[0]) == ssa.Value(call) {
 			continue
 		}
-		res := an.ReturnResults(ret)
-		if len(res) != 1 || an.Strip(res[0]) != ssa.Value(call) {
-			return write, 1, "Write does not return the result of " + fname(h) + " unchanged at " + c.pos(ret)
-		}
-	}
-	// and a success return of Write always passes the call
-	for _, ret := range an.Returns(write) {
-		res := an.ReturnResults(ret)
-		if len(res) == 1 && an.IsNilConst(an.Strip(res[0])) {
-			return write, 1, "Write can return nil without calling " + fname(h) + " at " + c.pos(ret)
+		isNil, known := resultNil(ret.Block())
+		if !known || isNil != isNilRet {
+			return write, 1, "Write does not report the result of " + fname(h) + " faithfully at " + c.pos(ret)
 		}
 	}
 	return h, respIdx, ""
+}
+
+// recvOf / respOf: the ResponseWriter and the Response as the frame emitter
+// sees them; for a function literal of Write they are Write's own parameters
+// (an.Strip resolves the literal's free variables to them).
+func recvOf(emit *ssa.Function) ssa.Value {
+	if emit.Parent() != nil {
+		return emit.Parent().Params[0]
+	}
+	return emit.Params[0]
+}
+
+func respOf(emit *ssa.Function, respIdx int) ssa.Value {
+	if emit.Parent() != nil {
+		return emit.Parent().Params[1]
+	}
+	if respIdx < len(emit.Params) {
+		return emit.Params[respIdx]
+	}
+	return nil
 }
 
 func checkC05(c *Ctx) {
@@ -145,9 +181,9 @@ func checkC05(c *Ctx) {
 			}
 			base, isField := fieldLoad(recv, G, "ResponseWriter", "writer")
 			switch {
-			case root != write:
+			case root != write && f != write:
 				R.Fail("C05-owner", key, c.pos(ci), "bufio.Writer."+m+" called outside (*ResponseWriter).Write: a second writer to the shared stream is not covered by the write lock")
-			case !isField || an.Strip(base) != ssa.Value(write.Params[0]):
+			case !isField || an.Strip(base) != recvOf(write):
 				R.Fail("C05-owner", key, c.pos(ci), "receiver of bufio.Writer."+m+" is not rw.writer (got "+an.Path(recv)+")")
 			case !isCall(ci):
 				R.Fail("C05-order", key, c.pos(ci), "bufio.Writer."+m+" is deferred or run on another goroutine; Write must return only after the frame is flushed")
@@ -315,7 +351,7 @@ func checkC05(c *Ctx) {
 			// receiver: load of .Packet of (invoke r.packet())
 			if base, okf := fieldLoad(call.Common().Args[0], G, "packet", "Packet"); okf {
 				if pc, isC := an.Strip(base).(*ssa.Call); isC && pc.Common().IsInvoke() && pc.Common().Method.Name() == "packet" &&
-					respIdx < len(write.Params) && an.Strip(pc.Common().Value) == ssa.Value(write.Params[respIdx]) {
+					an.Strip(pc.Common().Value) == respOf(write, respIdx) {
 					ok = true
 				}
 			}
